@@ -123,7 +123,7 @@ def crosshair_second_opinion() -> List[Dict[str, Any]]:
     src = '''
 from typing import Tuple
 import sys
-sys.path.insert(0, "/repo")
+sys.path.insert(0, "''' + os.environ.get("VERIF_REPO", "/repo") + '''")
 from unit_scaling.optim import _get_fan_in
 
 class P:
